@@ -73,7 +73,7 @@ def gen_cand_case(rng, tier):
         d = rng.choice([sep - 2, sep - 1, sep, sep, sep + 1])
         ang = rng.choice([0, 90, 37, 53, 180, 270, 143])
         blobs.append((int(round(y + d * math.sin(math.radians(ang)))), int(round(x + d * math.cos(math.radians(ang)))), a, s))
-    noise = G.noise_texture(rng, (H, W), rng.choice(['none', 'none', 'low', 'speckle', 'texture']) if kind != 'noise' else rng.choice(['texture', 'speckle']))
+    noise = G.noise_texture(rng, (H, W), rng.choice(['none', 'none', 'low', 'speckle', 'texture', 'quant']) if kind != 'noise' else rng.choice(['texture', 'speckle', 'quant']))
     img = G.render((H, W), blobs if kind != 'noise' or rng.random() < 0.5 else [], noise)
     pos = []
     for b in rng.sample(blobs, rng.randint(1, min(3, len(blobs)))):
@@ -524,13 +524,13 @@ def run(chk):
     eval_cands(chk, corpus_cands(), 'ccorp')
     eval_movies(chk, corpus_movies(), 'mcorp')
     # (A)
-    cr = eval_cands(chk, [gen_cand_case(rng, chk.tier) for _ in range(260 if quick else 2600)], 'cand')
+    cr = eval_cands(chk, [gen_cand_case(rng, chk.tier) for _ in range(260 if quick else 4000)], 'cand')
     # (B)/(C)
-    movies = [gen_movie(rng, chk.tier) for _ in range(200 if quick else 2000)]
+    movies = [gen_movie(rng, chk.tier) for _ in range(200 if quick else 3200)]
     # every complete movie also once with nothing withheld (detect-then-link comparison)
     extra = []
     for c in movies:
-        if c['kind'] == 'complete' and len(extra) < (25 if quick else 250):
+        if c['kind'] == 'complete' and len(extra) < (25 if quick else 400):
             d = dict(c)
             d['pw'] = 0.0
             extra.append(d)
